@@ -24,6 +24,30 @@ def line(f):
     return "| %s | %s | %s | %s |" % (f["id"], f["property"], f.get("commit", ""), w[:260] + ("…" if len(w) > 260 else ""))
 fx = "| id | property | commit | defect |\n|---|---|---|---|\n" + "\n".join(line(f) for f in fixed)
 op = "| id | property | | defect |\n|---|---|---|---|\n" + "\n".join(line(f) for f in openf)
+# per-property index from the check files
+import ast
+idx = []
+for pid in [json.loads(l)["id"] for l in open(os.path.join(V, "properties.jsonl"))]:
+    cp = os.path.join(V, "checks", pid + ".py")
+    if not os.path.exists(cp):
+        idx.append("| %s | — | — | not applicable (see §6) | | |" % pid); continue
+    src = open(cp).read()
+    specs = sorted(set(re.findall(r'ctx\.tlc\(\s*"([^"]+)",\s*"([^"]+)"', src)))
+    specs += sorted(set((a, b) for a, b in re.findall(r'tlc\w*\(\s*ctx,\s*"([^"]+)",\s*"([^"]+)"', src)))
+    hs = sorted(set(re.findall(r'"([A-Za-z0-9_/]+)",\s*\[([^\]]+)\]', src)))
+    harn = "; ".join("%s/{%s}" % (a, ",".join(x.strip().strip('"') for x in b.split(",") if x.strip().startswith('"'))) for a, b in hs if "_test.go" in b)
+    meta = None
+    for node in ast.parse(src).body:
+        if isinstance(node, ast.Assign) and any(getattr(t, "id", None) == "META" for t in node.targets):
+            try: meta = ast.literal_eval(node.value)
+            except Exception: meta = None
+    sp = ", ".join(sorted(set("specs/%s/%s.tla" % (a, b) for a, b in specs))) or "(see check file)"
+    kfo = [f["id"] for f in kf if f["property"] == pid and f["status"] == "open"]
+    kff = [f["id"] for f in kf if f["property"] == pid and f["status"] == "fixed"]
+    sd = [os.path.basename(d) for d in sorted(glob.glob(os.path.join(V, "seeded", pid + "-*")))]
+    idx.append("| %s | %s | %s | %s | open: %s; fixed: %s | %s |" % (pid, sp, harn or "(see check file)", (meta or {}).get("level", "model_checking"),
+               ", ".join(kfo) or "–", ", ".join(kff) or "–", ", ".join(sd) or "–"))
+index_tbl = "| id | specification modules | harness (under harness/) | level | findings | seeds |\n|---|---|---|---|---|---|\n" + "\n".join(idx)
 p = os.path.join(V, "DESIGN.md"); s = open(p).read()
 def put(s, tag, body):
     a, b = "<!-- BEGIN %s -->" % tag, "<!-- END %s -->" % tag
@@ -31,6 +55,6 @@ def put(s, tag, body):
         return s
     i, j = s.index(a) + len(a), s.index(b)
     return s[:i] + "\n" + body + "\n" + s[j:]
-s = put(s, "SEEDS", seed_tbl); s = put(s, "FIXED", fx); s = put(s, "OPEN", op)
+s = put(s, "INDEX", index_tbl); s = put(s, "SEEDS", seed_tbl); s = put(s, "FIXED", fx); s = put(s, "OPEN", op)
 open(p, "w").write(s)
 print("seeds", len(rows), "fixed", len(fixed), "open", len(openf))
